@@ -1,4 +1,4 @@
-(** Model of src/epd3in7/mod.rs — STUB, not yet transcribed. *)
+(** Model of src/epd3in7/mod.rs. *)
 From Coq Require Import List NArith Bool.
 From EPD Require Import Iface Ops Drv.Luts.
 Import ListNotations.
@@ -8,11 +8,89 @@ Open Scope m_scope.
 Module Epd3in7.
 Definition WIDTH : N := 280.
 Definition HEIGHT : N := 480.
+Definition IS_BUSY_LOW := false.
 
-Definition init : M unit := ret tt.
+(** crate::buffer_len *)
+Definition buffer_len (w h : N) : N := (w + 7) / 8 * h.
 
-Definition exec (k : N) (o : op) : option (M rval) := None.
+Definition set_lut (r : option N) : M unit :=
+  let buffer := match r with
+                | Some 1 => epd3in7_LUT_1GRAY_DU
+                | _ => epd3in7_LUT_1GRAY_GC
+                end in
+  cmd_with_data 0x32 buffer.
+
+Definition init : M unit :=
+  reset 30 10 ;;
+  cmd 0x12 ;;
+  delay_us 300000 ;;
+  cmd_with_data 0x46 [0xF7] ;;
+  wait_idle IS_BUSY_LOW ;;
+  cmd_with_data 0x47 [0xF7] ;;
+  wait_idle IS_BUSY_LOW ;;
+  cmd_with_data 0x01 [0xDF; 0x01; 0x00] ;;
+  cmd_with_data 0x03 [0x00] ;;
+  cmd_with_data 0x04 [0x41; 0xA8; 0x32] ;;
+  cmd_with_data 0x11 [0x03] ;;
+  cmd_with_data 0x3C [0x03] ;;
+  cmd_with_data 0x0C [0xAE; 0xC7; 0xC3; 0xC0; 0xC0] ;;
+  cmd_with_data 0x18 [0x80] ;;
+  cmd_with_data 0x2C [0x44] ;;
+  cmd_with_data 0x37 [0x00; 0xFF; 0xFF; 0xFF; 0xFF; 0x4F; 0xFF; 0xFF; 0xFF; 0xFF] ;;
+  cmd_with_data 0x44 [0x00; 0x00; 0x17; 0x01] ;;
+  cmd_with_data 0x45 [0x00; 0x00; 0xDF; 0x01] ;;
+  cmd_with_data 0x22 [0xCF] ;;
+  set_lut (Some 0).
+
+Definition sleep : M unit :=
+  cmd_with_data 0x50 [0xF7] ;;
+  cmd 0x02 ;;
+  cmd_with_data 0x07 [0xA5].
+
+Definition update_frame (k len : N) : M unit :=
+  assert (len =? buffer_len WIDTH HEIGHT) ;;
+  cmd_with_data 0x4E [0x00; 0x00] ;;
+  cmd_with_data 0x4F [0x00; 0x00] ;;
+  cmd_with_data_e 0x24 (DArg k 0 0 len).
+
+Definition update_partial_frame (k len x y w h : N) : M unit := panic.
+
+Definition display_frame : M unit :=
+  cmd 0x20 ;;
+  wait_idle IS_BUSY_LOW.
+
+Definition update_and_display_frame (k len : N) : M unit :=
+  update_frame k len ;;
+  display_frame.
+
+Definition clear_frame : M unit :=
+  cmd_with_data 0x4E [0x00; 0x00] ;;
+  cmd_with_data 0x4F [0x00; 0x00] ;;
+  s <- get ;;
+  let color := if bg s =? cWhite then 0xff else 0x00 in
+  cmd 0x24 ;;
+  data_x_times color (WIDTH * HEIGHT).
+
+Definition wait_until_idle : M unit := wait_idle IS_BUSY_LOW.
+
+Definition exec (k : N) (o : op) : option (M rval) :=
+  match o with
+  | OSleep => unit_ sleep
+  | OWakeUp => unit_ init
+  | OSetBg c => unit_ (modify (set_bg c))
+  | OGetBg => Some (s <- get ;; ret (RColor (bg s)))
+  | OWidth => Some (ret (RNum WIDTH))
+  | OHeight => Some (ret (RNum HEIGHT))
+  | OUpdateFrame len => unit_ (update_frame k len)
+  | OUpdatePartial len x y w h => unit_ (update_partial_frame k len x y w h)
+  | ODisplay => unit_ display_frame
+  | OUpdateAndDisplay len => unit_ (update_and_display_frame k len)
+  | OClear => unit_ clear_frame
+  | OSetLut r => unit_ (set_lut r)
+  | OWaitIdle => unit_ wait_until_idle
+  | _ => None
+  end.
 
 Definition drv (ft : feat) : driver :=
-  mkDriver WIDTH HEIGHT true d0 init exec.
+  mkDriver WIDTH HEIGHT true (mkD cWhite 0 false false 0 None) init exec.
 End Epd3in7.
